@@ -384,6 +384,45 @@ def r2(chk, prog):
     chk.check(len(endl_fmt) == 1, 'R2', f.name, 'exactly one line break between two input lines', f.loc())
 
 
+def r5_configuration_as_given(chk, prog):
+    """`the configured width` / `the configured indentation` are the constructor arguments: every scalar member of
+    TextBlock that a constructor initialises from its parameters takes ONE parameter unchanged (no clamping,
+    enlarging or arithmetic - a widened line length makes lines longer than the caller configured), and no
+    constructor body or member function re-assigns such a member."""
+    ctors = [f for f in prog.functions if f.classq == CLS and f.short == 'TextBlock' and f.inits]
+    chk.require(ctors, 'constructor of TextBlock not found')
+    n = 0
+    conf = set()
+    for f in ctors:
+        pnames = {p['name'] for p in f.params}
+        if not pnames:
+            continue
+        for i in f.inits:
+            e = i.get('init')
+            if i.get('kind') != 'member' or not isinstance(e, dict):
+                continue
+            refs = [x for x in walk(e) if x.get('k') == 'DeclRefExpr' and x.get('ref', {}).get('name') in pnames]
+            if not refs:
+                continue
+            n += 1
+            conf.add(i.get('name'))
+            e0 = strip_all_casts(e)
+            chk.check(e0.get('k') == 'DeclRefExpr' and e0.get('ref', {}).get('name') in pnames, 'R5', f.name,
+                      'member %s takes the constructor argument unchanged' % i.get('name'), f.loc(),
+                      'it is computed (%s): the block is formatted with another value than the configured one' % e0.get('k'))
+    chk.require(n >= 2, 'TextBlock members initialised from constructor parameters: %d' % n)
+    for f in prog.functions:
+        if f.classq != CLS or f.body is None:
+            continue
+        for x in f.walk():
+            if x.get('k') in ('BinaryOperator', 'CompoundAssignOperator') and (x.get('op') or '').endswith('=') and \
+                    x.get('op') not in ('==', '!=', '<=', '>=') and field_name(children(x)[0]) in conf and \
+                    strip_all_casts(children(x)[0]).get('k') == 'MemberExpr' and \
+                    children(strip_all_casts(children(x)[0]))[0].get('k') in ('CXXThisExpr', None):
+                chk.check(False, 'R5', f.name, 'the configured %s is not changed after construction' % field_name(
+                    children(x)[0]), f.loc(x))
+
+
 def run(chk):
     units = units_matching('library/format/text_block.cpp')
     prog = load_program(units)
@@ -417,3 +456,5 @@ def run(chk):
     c18.r5_visibility_arguments(chk, prog2, rule='R4')
     # ... and wraps the descriptions at the configured line length in every layout branch (shared with C18-R13)
     c18.r13_text_block_width(chk, prog2, rule='R4')
+    chk.rule('R5', 'the block is formatted with the configured width and indentation', 3)
+    r5_configuration_as_given(chk, prog)
